@@ -521,6 +521,16 @@ impl super::MainState {
                 )
                 .await?;
             }
+        } else if end {
+            // answer same as channel doesn't exist - do not reveal secret channel
+            self.feed_msg(
+                &mut conn_state.stream,
+                RplEndOfNames366 {
+                    client,
+                    channel: channel_name,
+                },
+            )
+            .await?;
         }
         Ok(())
     }
